@@ -136,6 +136,9 @@ func genC15(r *rand.Rand, tier string, env *Env) []Case {
 	var cases []Case
 	for i := 0; i < n; i++ {
 		ct := genCRSTree(r, 1+r.Intn(4))
+		if i%4 == 3 {
+			addAmbiguousRulesCopy(ct)
+		}
 		ra := pick(r, ct.ra)
 		// give the formatter and the renumberer something to change
 		cmds := [][]string{
